@@ -632,8 +632,8 @@ func (c *VCheck) CheckRelations(ids []string, scopes [][]string) {
 			}
 		}
 	}
-	// multi-start accounting
-	if len(ids) >= 2 {
+	// multi-start accounting (unscoped: left out when the harness keeps a dataset the model does not know)
+	if len(ids) >= 2 && !c.ScopedOnly {
 		for _, inv := range []bool{false, true} {
 			for _, limit := range []int{0, 1, 2} {
 				c.Checks++
